@@ -25,6 +25,8 @@ extern "C" {
   void          sym_freeze(void);                  // every object alive now becomes "pre-existing": later stores to it are recorded
   void          sym_allow(const void *p);          // ... except into this object
   unsigned      sym_writes(void);                  // number of recorded stores to pre-existing objects
+  bool          sym_decide(bool);                  // symbolic run: case split, concrete result on each side; native: identity
+  void          sym_run_ctors(const char *tu);     // symbolic run: execute the dynamic initialisers of that translation unit (e.g. "world.cc"); native: nothing (already run)
   void          sym_event(const char *what, unsigned long v);
 }
 #endif
